@@ -1449,7 +1449,9 @@ async fn reader(mut recv: s2n_quic::stream::ReceiveStream, c: AppCfg, sh: Sh, ep
                 break;
             }
         }
-        time::delay(Duration::from_millis(c.slow_wait_ms)).await;
+        if sh.lock().unwrap().ep[ep].closed == 0 {
+            time::delay(Duration::from_millis(c.slow_wait_ms)).await;
+        }
     }
     loop {
         let got: Result<Option<Vec<u8>>, ()> = match rmode {
@@ -2135,6 +2137,79 @@ fn e2e_inject(input: &[V]) -> Vec<V> {
     out
 }
 
+// ------------------------------------------------------------------------------------------
+// e2e_pn (C08)
+// ------------------------------------------------------------------------------------------
+//
+// case: [seed, retry_first, drop_pm, dup_pm, jitter_ms, delay_ms, n_bidi, bytes, max_ack_delay_ms,
+//        fault_until_ms, cc, n_uni, corrupt_pm]
+// output: [1, watchdog_hit, connect_ok, end_us, max_ack_delay_us, capped, n_rows, rows x 8]
+//   rows (kind, endpoint, space, a, b, t_us, 0, 0), in order of occurrence:
+//   0 packet built for sending: a = packet number, b = ack eliciting
+//   1 packet processed:         a = packet number, b = ack eliciting
+//   2 one range of an ACK frame this endpoint sends: a..=b
+//   3 the keys of the space were discarded
+//   4 the connection ended at this endpoint (closed, or CONNECTION_CLOSE sent)
+//   end_us = virtual time at which the recording stopped (end of the run, or the cap)
+
+fn e2e_pn(input: &[V]) -> Vec<V> {
+    let mut c = Cur::new(input);
+    let seed = c.u64();
+    let retry_first = c.u64().min(3);
+    let drop_pm = c.u64().min(400);
+    let dup_pm = c.u64().min(1000);
+    let jitter_ms = c.u64().min(1000);
+    let delay_ms = c.u64().clamp(1, 1000);
+    let n_bidi = c.u64().clamp(1, 8);
+    let bytes = c.u64().min(400_000);
+    let mad_ms = c.u64().min(1000);
+    let fault_until_ms = c.u64();
+    let cc = c.u64().min(1);
+    let n_uni = c.u64().min(4);
+    let corrupt_pm = c.u64().min(500);
+
+    let sh = new_shared(seed);
+    sh.lock().unwrap().xmode = 1;
+    let app = AppCfg {
+        seed,
+        n_bidi,
+        n_uni,
+        bytes,
+        stream_window: 200_000,
+        conn_window: 1_000_000,
+        max_streams: 100,
+        chunk: 3000,
+        read_size: 0,
+        idle_ms: 30_000,
+        watchdog_us: 300_000_000,
+        close_at_end: true,
+        retry_first,
+        cc,
+        max_ack_delay_ms: mad_ms,
+        ..Default::default()
+    };
+    let net = NetCfg {
+        seed,
+        drop_pm,
+        dup_pm,
+        corrupt_pm,
+        jitter_ms,
+        delay_ms,
+        max_udp: 65535,
+        fault_until_us: fault_until_ms * 1000,
+        ..Default::default()
+    };
+    let (end_us, _) = run_sim(net, app, sh.clone(), |_, _| Ok(()), 0);
+    let s = sh.lock().unwrap();
+    let end = if s.xcapped { s.xlog.last().map(|r| r[5]).unwrap_or(0) } else { end_us as V };
+    let mad_us = if mad_ms == 0 { 25_000 } else { mad_ms * 1000 };
+    let mut out: Vec<V> = vec![1, s.watchdog_hit as V, s.connect_ok as V, end, mad_us as V, s.xcapped as V, s.xlog.len() as V];
+    for r in &s.xlog {
+        out.extend_from_slice(r);
+    }
+    out
+}
+
 fn main() {
     // e2e_stream_cXX: the same run, judged for one property only by the extracted monitor
     h_common::main_with(&[
@@ -2145,5 +2220,6 @@ fn main() {
         ("e2e_stream_c12", e2e_stream),
         ("e2e_amp", e2e_amp),
         ("e2e_inject", e2e_inject),
+        ("e2e_pn", e2e_pn),
     ]);
 }
